@@ -44,6 +44,8 @@ FLOORS = {
                                                    "spec.productivity_checked": 14000},
                  "seen": {"spec.rule_form": 6}},
 }
+# W5: the repository's own test suite runs once under these ambient monitors (thorough tier)
+W5_MONITORS = ['spec']
 CASE_TIMEOUT = {"quick": 60, "thorough": 120}
 SIZES = {"quick": (520, 1500), "thorough": (10000, 30000)}
 
